@@ -39,11 +39,15 @@ GBlock(t) ==
   /\ BlockSeccomp(t)
   /\ hist' = Append(hist, [op |-> "block", t |-> t, state |-> Snap'])
   /\ UNCHANGED <<hook, callerT>>
+GDeny(t) ==
+  /\ DenyPrctl(t)
+  /\ hist' = Append(hist, [op |-> "denyprctl", t |-> t, state |-> Snap'])
+  /\ UNCHANGED <<hook, callerT>>
 GLib ==
   /\ LibNext
   /\ IF pc = "ret"
      THEN /\ hist' = Append(hist, [op |-> kind, t |-> m, nnp |-> req.nnp, flags |-> FlagSeq(req.flags),
-                                   pol |-> req.pol, fid |-> fid, hook |-> hook, res |-> res,
+                                   pol |-> req.pol, pid |-> req.pid, fid |-> fid, hook |-> hook, res |-> res,
                                    caller |-> callerT, kt |-> kret.t, att |-> kret.att,
                                    state |-> Snap])
           /\ hook' = <<>>
@@ -52,6 +56,7 @@ GLib ==
 GNext ==
   \/ GLib
   \/ \E t \in threads \cap Callers : GBlock(t)
+  \/ \E t \in threads \cap Callers : GDeny(t)
   \/ \E p \in threads, n \in Threads : GSpawn(p, n)
   \/ \E t \in threads : GMigrate(t)
 GSpec == GInit /\ [][GNext]_gvars
